@@ -14,11 +14,19 @@ type VerifSnap struct {
 // VerifSnapshotBegin is the first half of Engine.WriteSnapshot (statement for statement):
 // close the WAL segment and take the cache snapshot.  Used by the verification harness
 // to observe reads while a snapshot is being flushed.
-func (e *Engine) VerifSnapshotBegin() (*VerifSnap, error) {
+//
+// Like WriteSnapshot it takes snapshotMu; VerifSnapshotCommit releases it, so that a delete
+// (or another snapshot) issued in between waits exactly as it would for WriteSnapshot.
+func (e *Engine) VerifSnapshotBegin() (vs *VerifSnap, err error) {
+	e.snapshotMu.Lock()
+	defer func() {
+		if err != nil {
+			e.snapshotMu.Unlock()
+		}
+	}()
 	e.mu.Lock()
 	defer e.mu.Unlock()
 	var segments []string
-	var err error
 	if e.WALEnabled {
 		if err = e.WAL.CloseSegment(); err != nil {
 			return nil, err
@@ -43,6 +51,7 @@ func (e *Engine) VerifSnapshotBegin() (*VerifSnap, error) {
 
 // VerifSnapshotCommit is the second half of Engine.WriteSnapshot.
 func (e *Engine) VerifSnapshotCommit(s *VerifSnap) error {
+	defer e.snapshotMu.Unlock()
 	if s.snap.Size() == 0 {
 		e.Cache.ClearSnapshot(true)
 		return nil
